@@ -627,6 +627,17 @@ func c12Verify(c *core.Ctx, cfg c12Cfg, dir, ackFile string, desc map[string]int
 	}
 	// indexes
 	if s.qs != nil {
+		// the application goes on after the recovery: a dozen more values with keys of every
+		// kind (prefixes of each other, 0xFF bytes, separators in odd places), so that the
+		// queries after the rebuild run over more than the handful of ids of the crash history
+		for i, k := range []string{"a<FF>", "a<FF><FF>", "b", "ba", "abc", "z", "<FF>", "ab<FF>c", "a", "ab", "Ab", "a b", "a<FF>b", "abcd", "zz<00>q", "zz<00>q"} {
+			id, u := fmt.Sprintf("bulk%02d", i), fmt.Sprintf("bulk.u%d", i)
+			wt := s.st.Write(id)
+			if err := wt.Create(mkValue2(cfg.Typed, u, k, "")); err == nil {
+				after.Vals[id] = [2]string{u, k}
+			}
+			wt.Close()
+		}
 		s.qs.Flush()
 		if err := s.qs.RebuildIndexes(); err != nil {
 			c.Violation("C12/rebuild-failed:"+sigCfg, "RebuildIndexes failed: "+err.Error(), desc)
